@@ -106,11 +106,24 @@ func runC15(c *eng.Ctx) {
 		}
 		cm := c.Fn(swT + ".Commit")
 		fc := p.MustFacts(cm)
-		aw := c.One(cm, eng.CallTo(sbT+".afterWrite"), "builder.afterWrite(sw.key, sw.offset)")
+		// the index update of the committed entry: builder.afterWrite(key, offset), or its body (offset.Add, keys.Add) written in place
+		aw := c.One(cm, eng.Any(eng.CallTo(sbT+".afterWrite"), func(p *eng.Prog, in ssa.Instruction) bool {
+			return in.Parent() == cm && invokeOn(".keys", "Add")(p, in)
+		}), "builder.afterWrite(sw.key, sw.offset)")
 		good := fc.Find(fc.At(aw.Instr), "false", eng.DescSuffix(".badKey"), nil)
 		c.Check(len(good) > 0, "commit-only-good-key", aw.Instr, cm, "a rejected key is not indexed on commit", "")
 		a := eng.CallArgs(aw.Instr.(*ssa.Call))
-		c.Check(strings.HasSuffix(p.Desc(a[0]), ".key") && strings.Contains(p.Desc(a[1]), ".offset"), "commits-prepared-entry", aw.Instr, cm, "the entry indexed is the prepared key at the prepared offset", "")
+		keyD, offD := p.Desc(a[0]), ""
+		if len(a) > 1 {
+			offD = p.Desc(a[1])
+		} else {
+			for _, o := range p.SitesDirect(cm, invokeOn(".offset", "Add")) {
+				offD = p.Desc(eng.CallArgs(o.Instr.(*ssa.Call))[0])
+				good2 := fc.Find(fc.At(o.Instr), "false", eng.DescSuffix(".badKey"), nil)
+				c.Check(len(good2) > 0, "commit-only-good-key:offset", o.Instr, cm, "a rejected key's offset is not recorded on commit", "")
+			}
+		}
+		c.Check(strings.HasSuffix(keyD, ".key") && strings.Contains(offD, ".offset"), "commits-prepared-entry", aw.Instr, cm, "the entry indexed is the prepared key at the prepared offset", "indexes ("+keyD+", "+offD+")")
 		rs := c.Some(cm, eng.StoreField(swT+".badKey"), "sw.badKey = true")
 		c.Check(eng.DominatedBy(cm, rs[0].Instr, []eng.Site{aw}, nil), "closed-after-commit", rs[0].Instr, cm, "after a commit the writer rejects bytes until the next Prepare", "")
 		ns := c.Fn("kv/table.newStreamWriter")
